@@ -96,6 +96,7 @@ struct nbw {
 	int failed_cb;		/* fail callback invocations */
 	int dead;		/* writer unusable after an allocation failure (only freed) */
 	int wrote_after_fail;
+	int send_error_seen;	/* the transport has failed under this writer */
 	uint64_t wctr;
 };
 struct sockst {
@@ -458,6 +459,10 @@ on_send(struct vsock * vs, const void * buf, long result, int err)
 	if (S->nbw.W != NULL) {
 		if (S->nbw.failed_cb > 0)
 			sim_viol("C07.wr.send-after-fail", "send", "send on the writer's socket after the failure callback fired");
+		if (S->nbw.send_error_seen)
+			sim_viol("C07.wr.send-after-fail", "send-after-error", "send on the writer's socket after an earlier send had failed hard");
+		if (result == -1 && err != EAGAIN && err != EINTR)
+			S->nbw.send_error_seen = 1;
 		return;
 	}
 	if (S->wr == NULL || !S->wr->live)
@@ -1114,7 +1119,8 @@ run_loop(int n, const struct pline * tape)
 	vk_polltape = tape;
 	vk_polltape_pos = 0;
 	for (i = 0; i < n; i++) {
-		if (outstanding() == 0)
+		/* (always one iteration: nothing the model knows of is outstanding, but the library may think otherwise) */
+		if (outstanding() == 0 && i > 0)
 			break;
 		vk_pump();
 		f0 = simalloc_failed;
@@ -1239,8 +1245,11 @@ finish(void)
 		}
 	}
 	for (i = 0; i < nss; i++)
-		if (ss[i].nbw.W != NULL)
+		if (ss[i].nbw.W != NULL) {
 			nbw_check_prefix(&ss[i], 1);
+			if (ss[i].nbw.send_error_seen && ss[i].nbw.failed_cb == 0 && simalloc_failed == 0)
+				sim_viol("C07.wr.fail-once", "never", "a send failed hard under the writer but its failure callback never fired");
+		}
 	/* exactly-once accounting */
 	for (i = 0; i < nreq; i++)
 		if (!reqs[i].done && !reqs[i].cancelled && reqs[i].cookie != NULL && simalloc_failed == 0)
@@ -1557,6 +1566,18 @@ engine_gen(struct plan * P, uint64_t seed, struct prng * g)
 		l = plan_add(P, "tape", "0", 1, (int64_t)1);
 		gen_tape(g, l, (int)prng_n(g, 40), pe, pi, ps, perr);
 		plan_add(P, "step", "nbw_init", 1, (int64_t)0);
+		if (prng_chance(g, 25)) {
+			/* several buffers queued, the transport fails, the application keeps using the writer */
+			plan_add(P, "step", "nbw_write", 2, (int64_t)0, (int64_t)(4097 + prng_n(g, 9000)));
+			plan_add(P, "step", "nbw_write", 2, (int64_t)0, (int64_t)(1 + prng_n(g, 9000)));
+			plan_add(P, "step", "nbw_reserve", 3, (int64_t)0, (int64_t)(4097 + prng_n(g, 100)), (int64_t)(4097 + prng_n(g, 100)));
+			l = plan_add(P, "step", "run", 1, (int64_t)(1 + prng_n(g, 3)));
+			plan_add(P, "step", "inject_send_error", 1, (int64_t)0);
+			l = plan_add(P, "step", "run", 1, (int64_t)(1 + prng_n(g, 3)));
+			plan_add(P, "step", "nbw_reserve", 3, (int64_t)0, (int64_t)(1 + prng_n(g, 200)), (int64_t)prng_n(g, 300));
+			plan_add(P, "step", "nbw_write", 2, (int64_t)0, (int64_t)(1 + prng_n(g, 200)));
+			l = plan_add(P, "step", "run", 1, (int64_t)(1 + prng_n(g, 4)));
+		}
 		nsteps = 4 + (int)prng_n(g, 30);
 		for (s = 0; s < nsteps; s++) {
 			unsigned x = prng_n(g, 100);
@@ -1764,6 +1785,11 @@ engine_run(const struct plan * P)
 			nbw_write(&ss[si], arg(l, 1, 200000), 0, 0);
 		} else if (!strcmp(l->name, "nbw_reserve")) {
 			nbw_write(&ss[si], arg(l, 1, 200000), 1, arg(l, 2, 1 << 20));
+		} else if (!strcmp(l->name, "inject_send_error")) {
+			/* the connection breaks now: the next send fails hard */
+			ss[si].vs->rx_err = ECONNRESET;
+			ss[si].vs->peer_gone = 1;
+			TR(0x33, si, 0, "the connection of sock %d breaks (next send fails)", si);
 		} else if (!strcmp(l->name, "nbw_free")) {
 			if (ss[si].nbw.W != NULL) {
 				nbw_check_prefix(&ss[si], 0);
